@@ -227,7 +227,7 @@ fn main() -> Result<(), Box<dyn Error>> {
           f.read_to_end(&mut data)?;
 
           #[cfg(feature = "additional-controls")]
-          let c = validate_cbor_from_slice(&cddl_str, &data, None);
+          let c = validate_cbor_from_slice(&cddl_str, &data, enabled_features.as_deref());
           #[cfg(not(feature = "additional-controls"))]
           let c = validate_cbor_from_slice(&cddl_str, &data);
 
@@ -296,7 +296,7 @@ fn main() -> Result<(), Box<dyn Error>> {
         reader.read_to_end(&mut data)?;
         if let Ok(json) = std::str::from_utf8(&data) {
           #[cfg(feature = "additional-controls")]
-          let r = validate_json_from_str(&cddl_str, json, None);
+          let r = validate_json_from_str(&cddl_str, json, enabled_features.as_deref());
           #[cfg(not(feature = "additional-controls"))]
           let r = validate_json_from_str(&cddl_str, json);
 
